@@ -62,9 +62,11 @@ class Resp:
 class Session:
     """model of a requests session serving one resource"""
 
-    def __init__(self, resource, url, etag=STRONG_ETAG):
+    def __init__(self, resource, url, etag=STRONG_ETAG, outage=0):
         self.res = resource
         self.url = url
+        #: number of initial requests answered with an error page (503)
+        self.outage = outage
         self.etag = etag       # validator the server labels the resource with
         self.log = []          # (first, last) of every range request
         self.bad = []          # invalid / unsatisfiable range requests
@@ -78,6 +80,12 @@ class Session:
         if url != self.url:
             self.other_url.append(url)
         hd = {str(k).lower(): v for k, v in (headers or {}).items()}
+        if self.outage > 0:
+            self.outage -= 1
+            page = b"<html>503 Service Unavailable, try again</html>"
+            r503 = Resp(page, len(page), url, None, status=503)
+            r503.reason = "Service Unavailable"
+            return r503
         rng = hd.get("range")
         # preconditions (RFC 9110 section 13)
         im = hd.get("if-match")
@@ -147,9 +155,9 @@ class Model:
     """one HTTPFile instance on one resource"""
 
     def __init__(self, repo, resource, chunk_size, keep_chunks,
-                 url="http://host/res", etag=STRONG_ETAG):
+                 url="http://host/res", etag=STRONG_ETAG, outage=0):
         self.it = L.Interp(repo)
-        self.session = Session(resource, url, etag)
+        self.session = Session(resource, url, etag, outage)
         self._sessions = {url: self.session}
         self.env = self.it.env(HU, _externals(self._sessions))
         cls = self.env.lookup("HTTPFile")
